@@ -48,7 +48,50 @@ NONTRIVIAL.update({
     "conv": lambda c: any(("7e" in f or "2f" in f[3:]) for f in hexfields(c)) or (c.startswith("tint ") and len(c) > 6),
 })
 
+NONTRIVIAL.update({
+    # alloc: a text of at least two bytes
+    "alloc": lambda c: len(hexfields(c)[0]) > 3,
+})
+
+NONTRIVIAL.update({
+    # buf: a history of at least two steps
+    "buf": lambda c: c.count(" ") >= 3,
+    # prefix: both pointers non-root
+    "prefix": lambda c: all(len(f) > 1 for f in hexfields(c)),
+})
+
 PROPERTIES = {
+    "C11": {
+        "runs": [{"suite": "buf"}],
+        "level_text": "Proved in Coq for every valid start pointer and every finite history of the seven mutators with arbitrary arguments (indices over all of N): the implementation-level models splice bytes as the code does "
+                      "(insert at 0, rfind+split_off+pop, find in [1..]+split_off+mem::replace, collect-and-rebuild, root-aware append); one-step refinement for each mutator gives new text = from_tokens(deque after), "
+                      "valid, and the returned value corresponds (popped token / None iff empty; replace -> previous token or ReplaceError{index,count} with the text unchanged, error iff index >= count); "
+                      "lifted by induction to all histories (C11_refines_deque), never Panic; append is list concatenation, root neutral both sides, associative. "
+                      "Tie: every history of length <= 3/4 over 25 operations from 3 start states and random histories up to 60 steps, in lock step with the model and with a VecDeque<String>.",
+        "rule": "suite buf: every history of length <= 3 (quick) / 4 (thorough) over 25 ops (push_front/back x 5 raw tokens incl. \"\" ~ / é, 2 pre-encoded pushes, pop_front, pop_back, append x {root, /, /a//~1}, "
+                "replace x {0,1,usize::MAX} x 3 tokens, clear) from {root, /, /a/~0/}; random histories up to 60 steps; non-trivial = at least two steps; distinct = distinct case lines",
+    },
+    "C13": {
+        "runs": [{"suite": "prefix"}],
+        "level_text": "Proved in Coq for all pairs (triples) of valid pointers: starts_with (never panics) iff the token list of q is a leading sub-list of p's; strip_prefix = Some v iff the same, with v the pointer of the "
+                      "remaining tokens, valid, q.concat(v) = p and v a suffix view of p; strip_suffix / ends_with the mirror image with root treated as documented; intersection = pointer of the longest common leading "
+                      "token list (prefix of both, greatest, symmetric, idempotent, root if either is root, a prefix view of p); concat = list concatenation, associative, root neutral; the boundary lemma "
+                      "(a string prefix followed by '/' or end is a token prefix) is what forbids splitting a token (Example: /foo vs /foobar). "
+                      "Tie: all ordered pairs of 91/347 pointers incl. string-prefix-but-not-token-prefix neighbours, and random related pairs, all six operations per pair.",
+        "rule": "suite prefix: all ordered pairs of the pointers with <= 3 (quick) / 4 (thorough) tokens over {\"\", a, ab~0, ~1} plus /foo /foobar /foo/bar /a~0 /a~1 /a~0~0; random (base, base+suffix, base+string-extension) pairs; "
+                "non-trivial = both pointers non-root; distinct = distinct case lines",
+    },
+    "C19": {
+        "runs": [{"suite": "alloc", "profile": "debug"}, {"suite": "alloc", "profile": "release"}],
+        "level_text": "PARTIAL BY NATURE (DESIGN 6/C19, 9): heap allocation is a runtime fact and is MEASURED, not proved - a counting #[global_allocator] in the harness counts allocations "
+                      "around each listed operation (parse ok/err, from_encoded, tokens/components iteration, first/last/get, every split, parent, all range forms, strip_prefix/suffix, starts/ends_with, "
+                      "intersection, root/new, Box::into_buf, Token::new on plain text borrowed and owned, decoded() of escape-free borrowed/owned/from_encoded/into_owned tokens) on every small string and on "
+                      "multi-KiB pointers with thousands of tokens, debug and release; count must be 0. Proved in Coq (the logical part): Token::new builds an owned buffer iff the text has '~' or '/', "
+                      "decoded() iff the token has '~', and otherwise both hand back the very input; the view results are C02/C12/C13. The model's parse/from_encoded flags are constants.",
+        "rule": "suite alloc: every string over {~ / 0 1 a é} up to length 5 (quick) / 6 (thorough) paired with 4 second pointers, plus pointers of 1-3000 random tokens with a token-prefix/suffix partner and long plain / invalid texts; "
+                "debug and release; non-trivial = text of at least two bytes; distinct = distinct case lines",
+        "assumptions": ["std's str primitives (split, find, rfind, strip_prefix, strip_suffix, starts_with, split_at, Box<str>::into_string) do not allocate; what the allocator sees is measured only on the explored inputs"],
+    },
     "C17": {
         "runs": [{"suite": "cmp"}],
         "exhaustive": False,
